@@ -547,6 +547,7 @@ Definition define_step (creator : key) (label : str) (inp env out vol : list str
            (s : st) : res st :=
   if negb (is_some (find_node creator s)) then Internal 121          (* creator must be a node *)
   else if key_eqb creator root_key && root_has_step s then Usage 207 (* Boot step already defined *)
+  else if key_eqb creator (KStep, label) then Usage 211              (* a step cannot define itself *)
   else
   let k := (KStep, label) in
   match find_node k s with
